@@ -7,6 +7,10 @@ package oidc
 //@ import oidcv1 "github.com/istio-ecosystem/authservice/config/gen/go/v1/oidc"
 //@ import configv1 "github.com/istio-ecosystem/authservice/config/gen/go/v1"
 
+// package invariants: the hash fields the Redis store asks for (established by the package initialiser)
+//@ invariant rediskeys: len(deref(tokenResponseKeys)) == 5 && deref(tokenResponseKeys)[0] == "id_token" && deref(tokenResponseKeys)[1] == "access_token" && deref(tokenResponseKeys)[2] == "refresh_token" && deref(tokenResponseKeys)[3] == "access_token_expiry" && deref(tokenResponseKeys)[4] == "time_added"
+//@ invariant redisauthkeys: len(deref(authorizationStateKeys)) == 5 && deref(authorizationStateKeys)[0] == "state" && deref(authorizationStateKeys)[1] == "nonce" && deref(authorizationStateKeys)[2] == "requested_url" && deref(authorizationStateKeys)[3] == "time_added" && deref(authorizationStateKeys)[4] == "code_verifier"
+
 // ---------------------------------------------------------------------------------------------
 // SessionStore: the abstract session map (C12). View[self.pay] is the content of this store.
 // Every operation may fail; on failure the session is unchanged, as-if-applied, or gone
@@ -17,47 +21,53 @@ package oidc
 //@   modifies ghost View, ghost Clk
 //@   ensures  clock: Clk >= old(Clk)
 //@   ensures  timeout: t != nil ==> !TimedOut(old(View)[self.pay][sessionID], old(Clk), StoreAbs(self), StoreIdle(self))
-//@   ensures  kept_inside: t == nil && err == nil && old(View)[self.pay][sessionID].present && old(View)[self.pay][sessionID].hasTok ==> !InsideLimits(old(View)[self.pay][sessionID], Clk, StoreAbs(self), StoreIdle(self)) || !View[self.pay][sessionID].present
+//@   ensures  kept_inside: t == nil && err == nil && old(View)[self.pay][sessionID].present && old(View)[self.pay][sessionID].hasTok ==> !InsideLimits(old(View)[self.pay][sessionID], Clk, StoreAbs(self), StoreIdle(self)) || !JwtParses(old(View)[self.pay][sessionID].tok.id)
 //@   ensures  frame: OnlySid(old(View), View, self.pay, sessionID)
 //@   ensures  frame_pw: OnlySidPW(old(View), View, self.pay, sessionID)
 //@   derived  frame by L-onlysid-ext
 //@   ensures  err_nil: err != nil ==> t == nil
 //@   ensures  got: t != nil ==> old(View)[self.pay][sessionID].present && old(View)[self.pay][sessionID].hasTok && TokOf(t) == old(View)[self.pay][sessionID].tok
-//@   ensures  got_kept: t != nil ==> Touched(old(View)[self.pay][sessionID], View[self.pay][sessionID])
+//@   ensures  got_kept: t != nil ==> Touched(old(View)[self.pay][sessionID], View[self.pay][sessionID]) || (!View[self.pay][sessionID].present && Expirable(old(View)[self.pay][sessionID], Clk, StoreAbs(self), StoreIdle(self)))
+//@   ensures  refreshed: t != nil && View[self.pay][sessionID].present ==> Refreshed(View[self.pay][sessionID], old(Clk), Clk, StoreAbs(self), StoreIdle(self))
 //@   ensures  after: Touched(old(View)[self.pay][sessionID], View[self.pay][sessionID]) || !View[self.pay][sessionID].present
 
 //@ interface SessionStore method GetAuthorizationState(self, ctx, sessionID) (a, err)
 //@   modifies ghost View, ghost Clk
 //@   ensures  clock: Clk >= old(Clk)
 //@   ensures  timeout: a != nil ==> !TimedOut(old(View)[self.pay][sessionID], old(Clk), StoreAbs(self), StoreIdle(self))
-//@   ensures  kept_inside: a == nil && err == nil && old(View)[self.pay][sessionID].present && old(View)[self.pay][sessionID].hasAuth ==> !InsideLimits(old(View)[self.pay][sessionID], Clk, StoreAbs(self), StoreIdle(self)) || !View[self.pay][sessionID].present
+//@   ensures  kept_inside: a == nil && err == nil && old(View)[self.pay][sessionID].present && old(View)[self.pay][sessionID].hasAuth ==> !InsideLimits(old(View)[self.pay][sessionID], Clk, StoreAbs(self), StoreIdle(self))
 //@   ensures  frame: OnlySid(old(View), View, self.pay, sessionID)
 //@   ensures  frame_pw: OnlySidPW(old(View), View, self.pay, sessionID)
 //@   derived  frame by L-onlysid-ext
 //@   ensures  err_nil: err != nil ==> a == nil
 //@   ensures  got: a != nil ==> old(View)[self.pay][sessionID].present && old(View)[self.pay][sessionID].hasAuth && AuthOf(a) == old(View)[self.pay][sessionID].auth
-//@   ensures  got_kept: a != nil ==> Touched(old(View)[self.pay][sessionID], View[self.pay][sessionID])
+//@   ensures  got_kept: a != nil ==> Touched(old(View)[self.pay][sessionID], View[self.pay][sessionID]) || (!View[self.pay][sessionID].present && Expirable(old(View)[self.pay][sessionID], Clk, StoreAbs(self), StoreIdle(self)))
+//@   ensures  refreshed: a != nil && View[self.pay][sessionID].present ==> Refreshed(View[self.pay][sessionID], old(Clk), Clk, StoreAbs(self), StoreIdle(self))
 //@   ensures  after: Touched(old(View)[self.pay][sessionID], View[self.pay][sessionID]) || !View[self.pay][sessionID].present
 
 //@ interface SessionStore method SetTokenResponse(self, ctx, sessionID, tokenResponse) err
 //@   requires tok_nonnil: tokenResponse != nil
+//@   requires tok_id: tokenResponse.IDToken != ""
 //@   modifies ghost View, ghost Clk
 //@   ensures  clock: Clk >= old(Clk)
 //@   ensures  frame: OnlySid(old(View), View, self.pay, sessionID)
 //@   ensures  frame_pw: OnlySidPW(old(View), View, self.pay, sessionID)
 //@   derived  frame by L-onlysid-ext
-//@   ensures  ok: err == nil ==> SetTokPost(old(View)[self.pay][sessionID], View[self.pay][sessionID], TokOf(tokenResponse)) || (Expirable(old(View)[self.pay][sessionID], Clk, StoreAbs(self), StoreIdle(self)) && SetTokPost(AbsentSession(), View[self.pay][sessionID], TokOf(tokenResponse)))
-//@   ensures  fail: err != nil ==> View[self.pay][sessionID] == old(View)[self.pay][sessionID] || !View[self.pay][sessionID].present || SetTokPost(old(View)[self.pay][sessionID], View[self.pay][sessionID], TokOf(tokenResponse)) || (Expirable(old(View)[self.pay][sessionID], Clk, StoreAbs(self), StoreIdle(self)) && SetTokPost(AbsentSession(), View[self.pay][sessionID], TokOf(tokenResponse)))
+//@   ensures  ok: err == nil ==> SetTokPost(old(View)[self.pay][sessionID], View[self.pay][sessionID], TokOf(tokenResponse)) || (Expirable(old(View)[self.pay][sessionID], Clk, StoreAbs(self), StoreIdle(self)) && (SetTokPost(AbsentSession(), View[self.pay][sessionID], TokOf(tokenResponse)) || Restarted(View[self.pay][sessionID], old(Clk))))
+//@   ensures  refreshed: err == nil && View[self.pay][sessionID].present ==> Refreshed(View[self.pay][sessionID], old(Clk), Clk, StoreAbs(self), StoreIdle(self))
+//@   ensures  fail: err != nil ==> View[self.pay][sessionID] == old(View)[self.pay][sessionID] || !View[self.pay][sessionID].present || SetTokPost(old(View)[self.pay][sessionID], View[self.pay][sessionID], TokOf(tokenResponse)) || (Expirable(old(View)[self.pay][sessionID], Clk, StoreAbs(self), StoreIdle(self)) && (SetTokPost(AbsentSession(), View[self.pay][sessionID], TokOf(tokenResponse)) || Restarted(View[self.pay][sessionID], old(Clk))))
 
 //@ interface SessionStore method SetAuthorizationState(self, ctx, sessionID, authorizationState) err
 //@   requires auth_nonnil: authorizationState != nil
+//@   requires auth_full: authorizationState.State != "" && authorizationState.Nonce != "" && authorizationState.RequestedURL != "" && authorizationState.CodeVerifier != ""
 //@   modifies ghost View, ghost Clk
 //@   ensures  clock: Clk >= old(Clk)
 //@   ensures  frame: OnlySid(old(View), View, self.pay, sessionID)
 //@   ensures  frame_pw: OnlySidPW(old(View), View, self.pay, sessionID)
 //@   derived  frame by L-onlysid-ext
-//@   ensures  ok: err == nil ==> SetAuthPost(old(View)[self.pay][sessionID], View[self.pay][sessionID], AuthOf(authorizationState)) || (Expirable(old(View)[self.pay][sessionID], Clk, StoreAbs(self), StoreIdle(self)) && SetAuthPost(AbsentSession(), View[self.pay][sessionID], AuthOf(authorizationState)))
-//@   ensures  fail: err != nil ==> View[self.pay][sessionID] == old(View)[self.pay][sessionID] || !View[self.pay][sessionID].present || SetAuthPost(old(View)[self.pay][sessionID], View[self.pay][sessionID], AuthOf(authorizationState)) || (Expirable(old(View)[self.pay][sessionID], Clk, StoreAbs(self), StoreIdle(self)) && SetAuthPost(AbsentSession(), View[self.pay][sessionID], AuthOf(authorizationState)))
+//@   ensures  ok: err == nil ==> SetAuthPost(old(View)[self.pay][sessionID], View[self.pay][sessionID], AuthOf(authorizationState)) || (Expirable(old(View)[self.pay][sessionID], Clk, StoreAbs(self), StoreIdle(self)) && (SetAuthPost(AbsentSession(), View[self.pay][sessionID], AuthOf(authorizationState)) || Restarted(View[self.pay][sessionID], old(Clk))))
+//@   ensures  refreshed: err == nil && View[self.pay][sessionID].present ==> Refreshed(View[self.pay][sessionID], old(Clk), Clk, StoreAbs(self), StoreIdle(self))
+//@   ensures  fail: err != nil ==> View[self.pay][sessionID] == old(View)[self.pay][sessionID] || !View[self.pay][sessionID].present || SetAuthPost(old(View)[self.pay][sessionID], View[self.pay][sessionID], AuthOf(authorizationState)) || (Expirable(old(View)[self.pay][sessionID], Clk, StoreAbs(self), StoreIdle(self)) && (SetAuthPost(AbsentSession(), View[self.pay][sessionID], AuthOf(authorizationState)) || Restarted(View[self.pay][sessionID], old(Clk))))
 
 //@ interface SessionStore method ClearAuthorizationState(self, ctx, sessionID) err
 //@   modifies ghost View, ghost Clk
@@ -101,6 +111,7 @@ package oidc
 //@   ensures  crypto: NDraw == old(NDraw) + 1 && FromCrypto(r, 32, old(NDraw))
 //@ interface SessionGenerator method GenerateCodeVerifier(self) r
 //@   pure
+//@   ensures  nonempty: r != ""
 
 //@ interface JWKSProvider method Get(self, ctx, cfg) (set, err)
 //@   #allocates
@@ -110,7 +121,7 @@ package oidc
 //@ func (*Clock).Now
 //@   abstractbody
 //@   modifies ghost Clk
-//@   ensures  mono: result >= old(Clk) && Clk == result && result != TZERO
+//@   ensures  mono: result >= old(Clk) && Clk == result && result > TZERO + SECOND
 
 //@ func ParseToken
 //@   ensures  parses: (err == nil) == JwtParses(token)
@@ -134,6 +145,24 @@ package oidc
 //@   invariant allocated: forall a string :: mapHas(m.sessions, a) ==> m.sessions[a] <= watermark()
 //@   view View: MemView(m, sid)
 //@   private mapof(m.sessions), heap session.tokenResponse, heap session.authorizationState, heap session.added, heap session.accessed, ghost $held[addr(m.mu)], ghost Clk
+
+// ---------------------------------------------------------------------------------------------
+// redisStore implements SessionStore (C12, C10): View[store][sid] is read off the hash the Redis
+// server holds under sid (ghost RDB, see /verif/trusted/redis.gospec); the last-use time of the
+// abstract session is what the key's expiry instant stands for. Shown for histories in which no
+// Redis command fails (nofault): the store's multi-command writes are not atomic under faults.
+// ---------------------------------------------------------------------------------------------
+
+
+//@ impl (*redisStore) SessionStore (r, sid)
+//@   requires wf: r != nil && r.log != nil && r.clock != nil && r.client != nil && r.absoluteSessionTimeout >= 0 && r.idleSessionTimeout >= 0
+//@   requires nofault: !RFaulty
+//@   invariant dbwf: forall x string :: RKeyWF(RDB[r.client.pay][x], r.absoluteSessionTimeout, r.idleSessionTimeout)
+//@   view View: RedisView(r, sid)
+//@   private ghost RDB, ghost Clk
+
+//@ func (*redisStore).refreshExpiration
+//@   inline
 
 // ---------------------------------------------------------------------------------------------
 // DefaultJWKSProvider implements JWKSProvider (C02): the key set handed to the handler is the one
@@ -180,9 +209,11 @@ package oidc
 //@   ensures  store: result != nil && istype(result, *memoryStore) && fresh(result.(*memoryStore)) && result.(*memoryStore).absoluteSessionTimeout == absoluteSessionTimeout && result.(*memoryStore).idleSessionTimeout == idleSessionTimeout && result.(*memoryStore).clock == clock && result.(*memoryStore).sessions != nil && result.(*memoryStore).log != nil
 
 //@ func NewRedisStore
-//@   abstractbody
+//@   requires clock_nonnil: clock != nil
+//@   requires client_nonnil: client != nil
+//@   requires timeouts: absoluteSessionTimeout >= 0 && idleSessionTimeout >= 0
 //@   ensures  store: (result1 == nil) == (result0 != nil)
-//@   ensures  fields: result0 != nil ==> istype(result0, *redisStore) && fresh(result0.(*redisStore)) && result0.(*redisStore).absoluteSessionTimeout == absoluteSessionTimeout && result0.(*redisStore).idleSessionTimeout == idleSessionTimeout
+//@   ensures  fields: result0 != nil ==> istype(result0, *redisStore) && fresh(result0.(*redisStore)) && result0.(*redisStore).absoluteSessionTimeout == absoluteSessionTimeout && result0.(*redisStore).idleSessionTimeout == idleSessionTimeout && result0.(*redisStore).clock == clock && result0.(*redisStore).client == client && result0.(*redisStore).log != nil
 
 //@ func (*sessionStoreFactory).PreRun
 //@   requires wf: s != nil && s.Config != nil && WFConfig(s.Config) && s.memory == nil
